@@ -40,6 +40,7 @@ TYPES = [
     ('anonstruct', 'struct{ A int; B string }', {}, '', False),
     ('iface', 'Namer', {}, 'type Namer interface{ Name() string }', True),
     ('anoniface', 'interface{ Len() int }', {}, '', True),
+    ('embediface', 'interface{ io.Closer; Namer; Size() int64 }', {'io': ''}, 'type Namer interface{ Name() string }', True),
     ('generic1', 'Box[int]', {}, 'type Box[T any] struct{ V T }', False),
     ('generic2', '*Pair[string, Bar]', {}, 'type Pair[K comparable, V any] struct{ K K; V V }\ntype Bar struct{ S string }', True),
     ('genericext', 'Box[*bytes.Buffer]', {'bytes': ''}, 'type Box[T any] struct{ V T }', False),
@@ -67,7 +68,7 @@ class Case:
         self.meta = {}
 
 
-def gen_case(rng, cid, ntypes=None, adversarial=False, ninj=1, nfiles=1, force_async=None, types_keys=None):
+def gen_case(rng, cid, ntypes=None, adversarial=False, ninj=1, nfiles=1, force_async=None, types_keys=None, shadow_import=False):
     """One user package.  Providers: New<i>(deps...) (Ti[, error]); a final NewApp consumes everything not yet consumed."""
     c = Case(cid)
     decls = []
@@ -93,6 +94,22 @@ def gen_case(rng, cid, ntypes=None, adversarial=False, ninj=1, nfiles=1, force_a
             form = rng.choice(['*%s', '%s'])
             adv_types.append(('adv' + name, form % name, {}, 'type %s struct{ X int }' % name, form.startswith('*')))
     alltypes = chosen + adv_types
+    # a package-level identifier named like an imported package, declared in a file that sorts last: the user has to
+    # alias that import, and so has the generator
+    shadow = None
+    if shadow_import:
+        for t in alltypes:
+            for path, al in t[2].items():
+                if not al and '/' not in path and path != 'context' and shadow is None:
+                    shadow = path
+    if shadow:
+        def re_alias(t):
+            im = dict(t[2])
+            im[shadow] = shadow + 'x'
+            return (t[0], t[1].replace(shadow + '.', shadow + 'x.'), im, t[3], t[4])
+        alltypes = [re_alias(t) if shadow in t[2] else t for t in alltypes]
+        c.files['zz_names.go'] = 'package main\n\nvar %s = "a package-level identifier named like a package"\n' % shadow
+        c.meta['shadowed_import'] = shadow
     # one distinct Go type per provider: drop duplicates of identical type expressions
     uniq = []
     seen_t = set()
@@ -227,6 +244,10 @@ def corpus(tier, sd):
     for _ in range(10 if quick else 150):
         cases.append(gen_case(rng, 'm%03d' % n, adversarial=rng.random() < 0.5, ninj=rng.randint(1, 2), nfiles=rng.randint(1, 2)))
         n += 1
+    for key in ('extptr', 'extval', 'genericext', 'mapext'):
+        for asy in ((True,) if quick else (True, False)):
+            cases.append(gen_case(rng, 's%03d' % n, types_keys=[key, rng.choice(['ptrstruct', 'string', 'slice'])], force_async=asy, shadow_import=True))
+            n += 1
     return cases
 
 
